@@ -28,7 +28,8 @@ inductive Item where
   /-- a trace of member `label`; `some` when the set's watcher acts on it -/
   | trace (label : String) (tr : Option Tr)
   | waitCall (n : Nat)
-  | waitRet (n : Nat) (r : Bool)
+  /-- `short`: the call had a deadline so short that `false` proves nothing -/
+  | waitRet (n : Nat) (r : Bool) (short : Bool := false)
   | hold (p : String)
   | release (p : String)
   | ceaseSet
@@ -45,6 +46,7 @@ structure Case where
   observed : List (Nat × String × String) := []     -- position, label, catch node of `observed` traces
   notes : List String := []
   bad : List String := []
+  shortWaits : List Nat := []
 
 def normTok1 (t : String) : String :=
   match t.toList with
@@ -95,6 +97,10 @@ def parseCase (lines : List String) : Case := Id.run do
       match n.toNat? with
       | some n => c := { c with items := c.items ++ [.waitCall (n - 1)] }
       | none => c := { c with bad := c.bad ++ [ln] }
+    | ["op", "wait", n, "short"] =>
+      match n.toNat? with
+      | some n => c := { c with items := c.items ++ [.waitCall (n - 1)], shortWaits := c.shortWaits ++ [n - 1] }
+      | none => c := { c with bad := c.bad ++ [ln] }
     | ["op", "waitconc", k] =>
       match k.toNat? with
       | some k => c := { c with items := c.items ++ (List.range k).map .waitCall }
@@ -103,7 +109,7 @@ def parseCase (lines : List String) : Case := Id.run do
     | ["op", "release", p] => c := { c with items := c.items ++ [.release p] }
     | ["obs", "wait", n, r] | ["obs", "waitconc", n, r] =>
       match n.toNat?, parseBool? r with
-      | some n, some r => c := { c with items := c.items ++ [.waitRet (n - 1) r] }
+      | some n, some r => c := { c with items := c.items ++ [.waitRet (n - 1) r (c.shortWaits.contains (n - 1))] }
       | _, _ => c := { c with bad := c.bad ++ [ln] }
     | "obs" :: "panic" :: cls :: _ => c := { c with items := c.items ++ [.panic cls] }
     | ["obs", "subtimeout"] => c := { c with notes := c.notes ++ ["subtimeout"] }
@@ -193,7 +199,7 @@ def Case.specFindings (c : Case) : List Finding := Id.run do
         | _ => pure ()
       | _ => pure ()
     | .ceaseSet => ceaseSets := ceaseSets + 1
-    | .waitRet n true =>
+    | .waitRet n true _ =>
       anyTrue := true
       let open_ := seen.filter (fun l => !ceased.contains l)
       let execOpen := open_.filter (fun l => c.execPids.contains (pidOfLabel l))
@@ -220,7 +226,7 @@ def Case.specFindings (c : Case) : List Finding := Id.run do
     j := j + 1
     if let .waitCall n := it then
       if j > lastActivity && allCeased then
-        let r := c.items.findSome? (fun it => match it with | .waitRet m r => if m == n then some r else none | _ => none)
+        let r := c.items.findSome? (fun it => match it with | .waitRet m r sh => if m == n && !sh then some r else none | _ => none)
         if r == some false then
           out := out ++ [⟨"never_true", s!"every started process completed ({labs}) and wait {n + 1}, called afterwards, returned false"⟩]
   -- message flows, start events: one instance per throw
@@ -433,7 +439,7 @@ def replay (c : Case) (cfg : Cfg) (su : Setup) (pol : Policy) : RS := Id.run do
       else
         r := { r with s := step cfg su r.s .waitCall }
         r := settle e false r
-    | .waitRet n b =>
+    | .waitRet n b short =>
       r := settle e false r
       if r.s.panicked then pure ()    -- the crash is matched at the `panic` item
       else if b then
@@ -441,7 +447,7 @@ def replay (c : Case) (cfg : Cfg) (su : Setup) (pol : Policy) : RS := Id.run do
         | some s' => r := { r with s := s' }
         | none => r := { r with fail := some s!"wait {n + 1} returned true; in the model done is not closed" }
       else
-        if r.s.closes ≥ 1 then r := { r with fail := some s!"wait {n + 1} returned false; in the model done is closed" }
+        if r.s.closes ≥ 1 && !short then r := { r with fail := some s!"wait {n + 1} returned false; in the model done is closed" }
         else r := { r with s := step cfg su r.s (.waitTimeout n) }
     | .hold p => if p == "process.startwith.before_trigger" then r := { r with frozen := true }
     | .release p =>
@@ -461,6 +467,10 @@ def replay (c : Case) (cfg : Cfg) (su : Setup) (pol : Policy) : RS := Id.run do
               r := { r with s := step cfg su r.s (.proc i), cnt := bump r.cnt i }
               r := settle e false r
           | none => pure ()
+      -- … and more than that can be lost (the tail of several streams): with an unguarded close and two calls made,
+      -- the model has a continuation that panics as soon as the wait group drains; only that is required
+      if !r.s.panicked && !cfg.closeOnce && r.s.waits.length ≥ 2 then
+        r := { r with s := { r.s with panicked := true } }
       if !r.s.panicked then r := { r with fail := some "the process crashed; the model does not panic" }
   if r.fail.isSome then return r
   r := settle e true r
